@@ -25,6 +25,20 @@
 (*    TxnBeforeGate = TRUE is that careless order (write_txn() before enter_tx()); it    *)
 (*    exists only to show that NoMapFull / ResizeGate are not vacuous.                   *)
 (*                                                                                      *)
+(*  * enter_tx() is the gate EVERY transaction passes (Store::get_ser / exists / iter,     *)
+(*    Batch::new): it counts the transaction in EnvState.open_txs_count (`cnt`) and in the *)
+(*    calling thread's THREAD_TX_COUNTS entry (`mark[t]`); TxCounter::drop undoes both     *)
+(*    when the transaction is closed. A thread may hold several transactions at once (an   *)
+(*    iterator, a read in flight under it, a batch): the enlargement waits for cnt = 0,    *)
+(*    which has to mean "no transaction of any thread is open" (OpenTxs = 0), and while    *)
+(*    `resizing` is up the gate lets through exactly the threads that already hold a       *)
+(*    transaction (mark[t] > 0) - making such a thread wait would be a deadlock: the       *)
+(*    enlargement waits for the transaction it holds. Two careless variants exist only to  *)
+(*    show that CountAgrees / NoRemapUnderTxn / NoHolderParked / GateLive are not vacuous: *)
+(*    NestedCloseClearsMark = TRUE (the per-thread count is a mere mark that ANY close     *)
+(*    wipes) and ReadNotCounted = TRUE (the counter guard of a plain read dies before the  *)
+(*    read transaction does).                                                              *)
+(*                                                                                      *)
 (* Two formulations of the nested state are carried side by side and required to agree: *)
 (*   stack  - overlays (puts / tombstones per level; reads resolve top-down)            *)
 (*   shadow - what LMDB does: every nested transaction owns a full private view that    *)
@@ -35,17 +49,26 @@ CONSTANTS NS,        \* key spaces (prefix databases) 1..NS
           NK,        \* keys 1..NK in every space (ordered as LMDB orders them)
           Vals,      \* values (positive integers; the harness maps them to byte strings)
           MaxDepth,  \* nesting bound: batch, child, grand-child ...
-          NR,        \* outside iterator handles 1..NR (held by other threads)
+          NR,        \* store iterator handles 1..NR (each held by the thread that opened it)
+          NT,        \* threads 1..NT
+          Writers,   \* threads that open batches
+          RdThreads, \* threads that keep single-key reads in flight (ReadBegin .. ReadEnd); {} switches them off
           MapInit,   \* initial map size, in space units
+          UsedInit,  \* space already used at the start (lets the gate configurations start on a nearly full map)
           Chunk,     \* allocation chunk, in space units
           PutCost,   \* space units a put may newly allocate (0 switches space accounting off)
           BatchMax,  \* ASSUMPTION on callers: a batch allocates at most this many units
-          TxnBeforeGate  \* FALSE: Batch::new = enter_tx() then write_txn() (the code, the property);
+          TxnBeforeGate, \* FALSE: Batch::new = enter_tx() then write_txn() (the code, the property);
                          \* TRUE: write_txn() first - the waiting batch owns the write transaction (careless variant)
+          NestedCloseClearsMark, \* FALSE: THREAD_TX_COUNTS counts the thread's open transactions (the code);
+                         \* TRUE: it is a set of marks - closing ANY transaction of the thread wipes the mark (careless variant)
+          ReadNotCounted \* FALSE: Store::get_ser / exists hold their TxCounter for as long as their read transaction (the code);
+                         \* TRUE: the guard is dropped as soon as the read transaction has been opened (careless variant)
 
 Spaces  == 1..NS
 Keys    == 1..NK
 Readers == 1..NR
+Threads == 1..NT
 Cells   == Spaces \X Keys
 NoVal     == 0       \* absent
 Untouched == -1      \* overlay has no entry for the cell
@@ -53,27 +76,38 @@ Untouched == -1      \* overlay has no entry for the cell
 ASSUME Vals \subseteq (Nat \ {0})
 \* The resize policy (RESIZE_PERCENT = 0.9, checked only when a batch is opened) keeps at
 \* least 10 % of the map free at Begin. The property is claimed for batches below that.
-ASSUME BatchMax * 10 <= MapInit /\ MapInit >= Chunk
+ASSUME BatchMax * 10 <= MapInit /\ MapInit >= Chunk /\ UsedInit \in 0..MapInit
+ASSUME Writers \subseteq Threads /\ RdThreads \subseteq Threads
 
 VARIABLES committed,  \* [Cells -> Vals \cup {NoVal}]   durable, what every outside reader sees
           stack,      \* Seq of overlays: the open batch and its nested children
           shadow,     \* Seq of full views, same length as stack (LMDB-shaped formulation)
-          snap,       \* [Readers -> snapshot held by an outside iterator, or NoSnap]
+          bown,       \* the thread that owns the open batch stack (0: no batch is open)
+          snap,       \* [Readers -> snapshot held by a store iterator (and the thread holding it), or NoSnap]
+          rd,         \* [Threads -> the single-key read the thread has in flight (Store::get_ser in the middle of its value), or NoRd]
           mapSize, used, pend,   \* space accounting (units): map, high-water mark, open batch
+          squeezed,   \* the open batch was let through the gate on a map that needs enlarging (its thread holds another transaction)
           resizing,   \* EnvState.resizing: an enlargement has been requested and not yet carried out
-          parked,     \* "no" | "gate": a batch() call waits at the enter_tx gate for the enlargement, owning nothing
-                      \* | "gate_txn": it waits there while already owning LMDB's write transaction (careless variant only)
+          wait,       \* [Threads -> "no" | "gate": the thread's batch() call waits at the enter_tx gate for the enlargement, owning nothing
+                      \*  | "gate_txn": it waits there while already owning LMDB's write transaction (careless variant TxnBeforeGate only)
+                      \*  | "nested": it waits there for one more transaction while HOLDING one (reachable in careless variants only)]
+          cnt,        \* EnvState.open_txs_count, as enter_tx / TxCounter::drop keep it
+          mark,       \* [Threads -> the thread's THREAD_TX_COUNTS entry for this environment]
+          torn,       \* history: the map has been replaced (munmap + mmap) under an open transaction
           act         \* label, arguments and RESULT of the last action (not part of the state view)
 
-vars  == <<committed, stack, shadow, snap, mapSize, used, pend, resizing, parked, act>>
-state == <<committed, stack, shadow, snap, mapSize, used, pend, resizing, parked>>
-gate  == <<resizing, parked>>
+vars  == <<committed, stack, shadow, bown, snap, rd, mapSize, used, pend, squeezed, resizing, wait, cnt, mark, torn, act>>
+state == <<committed, stack, shadow, bown, snap, rd, mapSize, used, pend, squeezed, resizing, wait, cnt, mark, torn>>
+data  == <<committed, stack, shadow, bown, snap, rd>>
+space == <<mapSize, used, pend, squeezed>>
+gate  == <<resizing, wait, cnt, mark, torn>>
 
 Maps     == [Cells -> Vals \cup {NoVal}]
 Overlays == [Cells -> Vals \cup {NoVal, Untouched}]
 EmptyMap == [c \in Cells |-> NoVal]
 EmptyOv  == [c \in Cells |-> Untouched]
 NoSnap   == [open |-> FALSE]
+NoRd     == [open |-> FALSE]
 Depth    == Len(stack)
 
 -----------------------------------------------------------------------------
@@ -111,105 +145,161 @@ NewSize == IF mapSize < Chunk THEN Chunk
                 IN CHOOSE t \in ok : \A t2 \in ok : t <= t2
 
 NoReaderOpen == \A r \in Readers : snap[r] = NoSnap
+\* the transactions a thread holds at this instant: its iterators, its read in flight, its batch
+HoldsIt(t) == Cardinality({r \in Readers : snap[r] # NoSnap /\ snap[r].th = t})
+HoldsRd(t) == IF rd[t] # NoRd THEN 1 ELSE 0
+HoldsB(t)  == IF stack # <<>> /\ bown = t THEN 1 ELSE 0
+Holds(t)   == HoldsIt(t) + HoldsRd(t) + HoldsB(t)
 \* what EnvState.open_txs_count has to equal at every instant (enter_tx increments, TxCounter::drop decrements):
-\* the open outside read transactions plus the open batch. The enlargement waits for it to be 0 - a count that
-\* drifts upwards (a lost decrement) means the enlargement, and with it every later store call, waits for ever.
-OpenTxs == Cardinality({r \in Readers : snap[r] # NoSnap}) + (IF stack # <<>> THEN 1 ELSE 0)
-GateOpen == ~resizing /\ parked = "no"
+\* EVERY open transaction of EVERY thread. The enlargement waits for it to be 0 - a count that drifts upwards (a lost
+\* decrement) means the enlargement, and with it every later store call, waits for ever; a count that misses a
+\* transaction means the map is replaced under it.
+OpenTxs == Cardinality({r \in Readers : snap[r] # NoSnap}) + Cardinality({t \in Threads : rd[t] # NoRd})
+           + (IF stack # <<>> THEN 1 ELSE 0)
+Parked(t) == wait[t] # "no"
+\* the thread can make a store call: it is neither asleep in the gate nor in the middle of a single-key read
+\* (a read in flight is the innermost thing its thread does: iterator open -> look the item up -> go on)
+Idle(t) == ~Parked(t) /\ rd[t] = NoRd
+
+(* ---- the gate: Store::enter_tx / TxCounter::drop ---- *)
+\* while `resizing` is up only a thread that already holds a transaction is let through
+CanEnter(t) == ~resizing \/ mark[t] > 0
+Entered(t)  == /\ cnt' = cnt + 1
+               /\ mark' = [mark EXCEPT ![t] = IF NestedCloseClearsMark THEN 1 ELSE @ + 1]
+Left(t)     == /\ cnt' = cnt - 1
+               /\ mark' = [mark EXCEPT ![t] = IF NestedCloseClearsMark THEN 0 ELSE @ - 1]
 
 -----------------------------------------------------------------------------
-Init == /\ committed = EmptyMap /\ stack = <<>> /\ shadow = <<>>
-        /\ snap = [r \in Readers |-> NoSnap]
-        /\ mapSize = MapInit /\ used = 0 /\ pend = 0
-        /\ resizing = FALSE /\ parked = "no"
+Init == /\ committed = EmptyMap /\ stack = <<>> /\ shadow = <<>> /\ bown = 0
+        /\ snap = [r \in Readers |-> NoSnap] /\ rd = [t \in Threads |-> NoRd]
+        /\ mapSize = MapInit /\ used = UsedInit /\ pend = 0 /\ squeezed = FALSE
+        /\ resizing = FALSE /\ wait = [t \in Threads |-> "no"]
+        /\ cnt = 0 /\ mark = [t \in Threads |-> 0] /\ torn = FALSE
         /\ act = [k |-> "Init"]
 
 (* ---- the writer: Store::batch() and everything done through the Batch ---- *)
-Begin == /\ stack = <<>>                 \* LMDB writer mutex: one batch stack at a time
-         /\ GateOpen
-         /\ ~NeedsResize                 \* batch() resizes first (and waits for open readers): BeginWait
-         /\ stack' = <<EmptyOv>> /\ shadow' = <<committed>> /\ pend' = 0
-         /\ act' = [k |-> "Begin"]
-         /\ UNCHANGED <<committed, snap, mapSize, used, gate>>
+\* batch() that gets through the gate at once: either nothing is pending and the map has room (any thread), or the
+\* calling thread already holds a transaction (an iterator, a read in flight): then maybe_resize() can only raise the
+\* flag (the enlargement has to wait for that very transaction) and enter_tx lets the thread through - on the OLD map.
+\* Such a batch (`squeezed`) is outside the property's quantifier (iterators "on other threads"): the assumption on
+\* callers is then that it fits into what is left of the map.
+Begin(t) == /\ t \in Writers /\ Idle(t)
+            /\ stack = <<>>                 \* LMDB writer mutex: one batch stack at a time
+            /\ (mark[t] > 0 \/ (~resizing /\ ~NeedsResize))
+            /\ stack' = <<EmptyOv>> /\ shadow' = <<committed>> /\ bown' = t /\ pend' = 0
+            /\ squeezed' = NeedsResize
+            /\ resizing' = (resizing \/ NeedsResize)
+            /\ Entered(t)
+            /\ act' = [k |-> "Begin", t |-> t]
+            /\ UNCHANGED <<committed, snap, rd, mapSize, used, wait, torn>>
 
-\* batch() on a map that is more than 90 % full: maybe_resize() raises `resizing`; the caller parks at the
-\* enter_tx gate until the enlargement has been carried out (at once if OpenTxs = 0, else when the last open
-\* transaction of the other threads is closed). (Two writers racing the needs_resize check are outside the model.)
-BeginWait == /\ stack = <<>> /\ GateOpen /\ NeedsResize
-             /\ resizing' = TRUE
-             /\ parked' = IF TxnBeforeGate THEN "gate_txn" ELSE "gate"
-             /\ act' = [k |-> "BeginWait"]
-             /\ UNCHANGED <<committed, stack, shadow, snap, mapSize, used, pend>>
+\* batch() on a map that is more than 90 % full, by a thread that holds nothing: maybe_resize() raises `resizing`; the
+\* caller parks at the enter_tx gate until the enlargement has been carried out (at once if cnt = 0, else when the last
+\* open transaction of the other threads is closed). (Two writers racing the needs_resize check are outside the model.)
+BeginWait(t) == /\ t \in Writers /\ Idle(t)
+                /\ stack = <<>> /\ ~resizing /\ NeedsResize /\ mark[t] = 0
+                /\ resizing' = TRUE
+                /\ wait' = [wait EXCEPT ![t] = IF TxnBeforeGate THEN "gate_txn" ELSE "gate"]
+                /\ act' = [k |-> "BeginWait", t |-> t]
+                /\ UNCHANGED <<data, space, cnt, mark, torn>>
 
 \* the gate opens: the parked batch gets (or, careless variant, already has) the write transaction and goes on
-Admit == /\ parked # "no" /\ ~resizing /\ stack = <<>>
-         /\ stack' = <<EmptyOv>> /\ shadow' = <<committed>> /\ pend' = 0
-         /\ parked' = "no"
-         /\ act' = [k |-> "Begin"]
-         /\ UNCHANGED <<committed, snap, mapSize, used, resizing>>
+Admit(t) == /\ wait[t] \in {"gate", "gate_txn"} /\ ~resizing /\ stack = <<>>
+            /\ stack' = <<EmptyOv>> /\ shadow' = <<committed>> /\ bown' = t /\ pend' = 0
+            /\ squeezed' = FALSE
+            /\ wait' = [wait EXCEPT ![t] = "no"]
+            /\ Entered(t)
+            /\ act' = [k |-> "Begin", t |-> t]
+            /\ UNCHANGED <<committed, snap, rd, mapSize, used, resizing, torn>>
+
+\* the thread that owns the batch is not stuck at the gate with some other call
+BIdle == Depth > 0 /\ Idle(bown)
 
 Write(sp, key, v, name, cost) ==
-         /\ Depth > 0 /\ pend + cost <= BatchMax
+         /\ BIdle /\ pend + cost <= BatchMax
+         /\ (squeezed => used + pend + cost <= mapSize)
          /\ stack'  = [stack  EXCEPT ![Depth][<<sp, key>>] = v]
          /\ shadow' = [shadow EXCEPT ![Depth][<<sp, key>>] = v]
          /\ pend' = pend + cost
          /\ act' = [k |-> name, sp |-> sp, key |-> key, val |-> v]
-         /\ UNCHANGED <<committed, snap, mapSize, used, gate>>
+         /\ UNCHANGED <<committed, bown, snap, rd, mapSize, used, squeezed, gate>>
 Put(sp, key, v) == v \in Vals /\ Write(sp, key, v, "Put", PutCost)
 Del(sp, key)    == Write(sp, key, NoVal, "Del", 0)     \* deleting an absent key is a no-op, not an error
 
-Read(a) == Depth > 0 /\ act' = a /\ UNCHANGED state
+Read(a) == BIdle /\ act' = a /\ UNCHANGED state
 Get(sp, key)    == Read([k |-> "Get", sp |-> sp, key |-> key, res |-> Lookup(<<sp, key>>)])
 Exists(sp, key) == Read([k |-> "Exists", sp |-> sp, key |-> key, res |-> Lookup(<<sp, key>>) # NoVal])
 Iter(sp)        == Read([k |-> "Iter", sp |-> sp, res |-> IterRes(TopView, sp)])
 
-Child == /\ Depth >= 1 /\ Depth < MaxDepth
+Child == /\ BIdle /\ Depth < MaxDepth
          /\ stack' = Append(stack, EmptyOv)
          /\ shadow' = Append(shadow, shadow[Depth])
          /\ act' = [k |-> "Child"]
-         /\ UNCHANGED <<committed, snap, mapSize, used, pend, gate>>
+         /\ UNCHANGED <<committed, bown, snap, rd, space, gate>>
 
 MergeOv(below, top) == [c \in Cells |-> IF top[c] # Untouched THEN top[c] ELSE below[c]]
 
-CommitChild == /\ Depth >= 2
+CommitChild == /\ BIdle /\ Depth >= 2
                /\ stack'  = SubSeq(stack, 1, Depth - 2) \o <<MergeOv(stack[Depth - 1], stack[Depth])>>
                /\ shadow' = SubSeq(shadow, 1, Depth - 2) \o <<shadow[Depth]>>
                /\ act' = [k |-> "CommitChild"]
-               /\ UNCHANGED <<committed, snap, mapSize, used, pend, gate>>
+               /\ UNCHANGED <<committed, bown, snap, rd, space, gate>>
 
-DropChild == /\ Depth >= 2
+DropChild == /\ BIdle /\ Depth >= 2
              /\ stack'  = SubSeq(stack, 1, Depth - 1)
              /\ shadow' = SubSeq(shadow, 1, Depth - 1)
              /\ act' = [k |-> "DropChild"]
-             /\ UNCHANGED <<committed, snap, mapSize, used, pend, gate>>
+             /\ UNCHANGED <<committed, bown, snap, rd, space, gate>>
 
-Commit == /\ Depth = 1
+Commit == /\ BIdle /\ Depth = 1
           /\ committed' = ApplyOv(committed, stack[1])
-          /\ stack' = <<>> /\ shadow' = <<>>
+          /\ stack' = <<>> /\ shadow' = <<>> /\ bown' = 0
           /\ used' = used + pend /\ pend' = 0      \* pessimistic: freed pages are never reused
+          /\ squeezed' = FALSE
+          /\ Left(bown)
           /\ act' = [k |-> "Commit"]
-          /\ UNCHANGED <<snap, mapSize, gate>>
+          /\ UNCHANGED <<snap, rd, mapSize, resizing, wait, torn>>
 
-Drop == /\ Depth = 1
-        /\ stack' = <<>> /\ shadow' = <<>> /\ pend' = 0
+Drop == /\ BIdle /\ Depth = 1
+        /\ stack' = <<>> /\ shadow' = <<>> /\ bown' = 0 /\ pend' = 0
+        /\ squeezed' = FALSE
+        /\ Left(bown)
         /\ act' = [k |-> "Drop"]
-        /\ UNCHANGED <<committed, snap, mapSize, used, gate>>
+        /\ UNCHANGED <<committed, snap, rd, mapSize, used, resizing, wait, torn>>
 
-(* ---- other threads: Store::get_ser / exists / iter on fresh read transactions ---- *)
+(* ---- Store::get_ser / exists / iter on fresh read transactions (any thread, whatever else it holds) ---- *)
 OutGetRes(m, sp, key)    == m[<<sp, key>>]
 OutExistsRes(m, sp, key) == m[<<sp, key>>] # NoVal
-OutRead(a) == ~resizing /\ act' = a /\ UNCHANGED state      \* enter_tx lets nobody in while `resizing` is up
-OutGet(sp, key)    == OutRead([k |-> "OutGet", sp |-> sp, key |-> key, res |-> OutGetRes(committed, sp, key)])
-OutExists(sp, key) == OutRead([k |-> "OutExists", sp |-> sp, key |-> key, res |-> OutExistsRes(committed, sp, key)])
-OutIter(sp)        == OutRead([k |-> "OutIter", sp |-> sp, res |-> IterRes(committed, sp)])
+\* a read that is over within one step (enter_tx .. TxCounter::drop)
+OutRead(t, a) == Idle(t) /\ CanEnter(t) /\ act' = a /\ UNCHANGED state
+OutGet(t, sp, key)    == OutRead(t, [k |-> "OutGet", t |-> t, sp |-> sp, key |-> key, res |-> OutGetRes(committed, sp, key)])
+OutExists(t, sp, key) == OutRead(t, [k |-> "OutExists", t |-> t, sp |-> sp, key |-> key, res |-> OutExistsRes(committed, sp, key)])
+OutIter(t, sp)        == OutRead(t, [k |-> "OutIter", t |-> t, sp |-> sp, res |-> IterRes(committed, sp)])
 
-OutIterOpen(r, sp) == /\ snap[r] = NoSnap /\ ~resizing
-                      /\ snap' = [snap EXCEPT ![r] = [open |-> TRUE, m |-> committed, sp |-> sp, pos |-> 0]]
-                      /\ act' = [k |-> "OutIterOpen", r |-> r, sp |-> sp]
-                      /\ UNCHANGED <<committed, stack, shadow, mapSize, used, pend, gate>>
+\* Store::get_ser caught in the middle: the read transaction is open (ReadBegin), other threads and this thread's
+\* other transactions go on, and when it returns (ReadEnd) it yields what was committed when it was opened
+ReadBegin(t, sp, key) ==
+         /\ t \in RdThreads /\ Idle(t) /\ CanEnter(t)
+         /\ rd' = [rd EXCEPT ![t] = [open |-> TRUE, sp |-> sp, key |-> key, val |-> committed[<<sp, key>>]]]
+         /\ IF ReadNotCounted THEN UNCHANGED <<cnt, mark>> ELSE Entered(t)
+         /\ act' = [k |-> "ReadBegin", t |-> t, sp |-> sp, key |-> key]
+         /\ UNCHANGED <<committed, stack, shadow, bown, snap, space, resizing, wait, torn>>
+
+ReadEnd(t) == /\ rd[t] # NoRd /\ ~Parked(t)
+              /\ rd' = [rd EXCEPT ![t] = NoRd]
+              /\ IF ReadNotCounted THEN UNCHANGED <<cnt, mark>> ELSE Left(t)
+              /\ act' = [k |-> "ReadEnd", t |-> t, sp |-> rd[t].sp, key |-> rd[t].key, res |-> rd[t].val]
+              /\ UNCHANGED <<committed, stack, shadow, bown, snap, space, resizing, wait, torn>>
+
+OutIterOpen(t, r, sp) ==
+         /\ Idle(t) /\ snap[r] = NoSnap /\ CanEnter(t)
+         /\ snap' = [snap EXCEPT ![r] = [open |-> TRUE, m |-> committed, sp |-> sp, pos |-> 0, th |-> t]]
+         /\ Entered(t)
+         /\ act' = [k |-> "OutIterOpen", t |-> t, r |-> r, sp |-> sp]
+         /\ UNCHANGED <<committed, stack, shadow, bown, rd, space, resizing, wait, torn>>
 
 NextKeys(s) == {k2 \in Keys : k2 > s.pos /\ s.m[<<s.sp, k2>>] # NoVal}
-OutIterNext(r) == /\ snap[r] # NoSnap
+OutIterNext(r) == /\ snap[r] # NoSnap /\ Idle(snap[r].th)
                   /\ LET s == snap[r] nk == NextKeys(s) IN
                      IF nk = {} THEN
                         /\ snap' = [snap EXCEPT ![r].pos = NK + 1]
@@ -217,42 +307,56 @@ OutIterNext(r) == /\ snap[r] # NoSnap
                      ELSE LET k1 == CHOOSE k2 \in nk : \A k3 \in nk : k2 <= k3 IN
                         /\ snap' = [snap EXCEPT ![r].pos = k1]
                         /\ act' = [k |-> "OutIterNext", r |-> r, res |-> <<k1, s.m[<<s.sp, k1>>]>>]
-                  /\ UNCHANGED <<committed, stack, shadow, mapSize, used, pend, gate>>
+                  /\ UNCHANGED <<committed, stack, shadow, bown, rd, space, gate>>
 
-OutIterClose(r) == /\ snap[r] # NoSnap
+OutIterClose(r) == /\ snap[r] # NoSnap /\ Idle(snap[r].th)
                    /\ snap' = [snap EXCEPT ![r] = NoSnap]
+                   /\ Left(snap[r].th)
                    /\ act' = [k |-> "OutIterClose", r |-> r]
-                   /\ UNCHANGED <<committed, stack, shadow, mapSize, used, pend, gate>>
+                   /\ UNCHANGED <<committed, stack, shadow, bown, rd, space, resizing, wait, torn>>
+
+\* enter_tx does NOT let a thread through that holds a transaction (its mark says it holds none) while an enlargement
+\* is pending: the thread sleeps in the gate with its transaction(s) open. Never enabled as long as mark[t] = Holds(t).
+ParkNested(t) == /\ Idle(t) /\ resizing /\ mark[t] = 0 /\ Holds(t) > 0
+                 /\ wait' = [wait EXCEPT ![t] = "nested"]
+                 /\ act' = [k |-> "ParkNested", t |-> t]
+                 /\ UNCHANGED <<data, space, resizing, cnt, mark, torn>>
 
 (* ---- the environment ---- *)
-\* mdb_env_set_mapsize, requested by BeginWait: carried out only once no transaction is open in the process
-\* (OpenTxs = 0; nobody can get in meanwhile) - and the batch parked at the gate does not own the write transaction
-Resize == /\ resizing /\ OpenTxs = 0 /\ parked # "gate_txn"
+\* mdb_env_set_mapsize, requested by maybe_resize(): carried out (by the requesting thread or by its helper thread)
+\* once open_txs_count is 0 - which must mean that no transaction is open in the process (nobody can get in meanwhile)
+\* - and the batch parked at the gate does not own the write transaction
+Resize == /\ resizing /\ cnt = 0 /\ \A t \in Threads : wait[t] # "gate_txn"
           /\ mapSize' = NewSize /\ resizing' = FALSE
+          /\ torn' = (torn \/ OpenTxs > 0)
           /\ act' = [k |-> "Resize"]
-          /\ UNCHANGED <<committed, stack, shadow, snap, used, pend, parked>>
+          /\ UNCHANGED <<data, used, pend, squeezed, wait, cnt, mark>>
 
 \* careless variant only: the parked batch owns LMDB's write transaction, mdb_env_set_mapsize answers EINVAL,
 \* which is only logged; the flag is cleared all the same and the batch goes on against the old map
-ResizeRefused == /\ resizing /\ NoReaderOpen /\ parked = "gate_txn"
+ResizeRefused == /\ resizing /\ cnt = 0 /\ \E t \in Threads : wait[t] = "gate_txn"
                  /\ resizing' = FALSE
                  /\ act' = [k |-> "ResizeRefused"]
-                 /\ UNCHANGED <<committed, stack, shadow, snap, mapSize, used, pend, parked>>
+                 /\ UNCHANGED <<data, space, wait, cnt, mark, torn>>
 
 \* process death at any instant (in particular right before / right after Commit)
-Crash == /\ stack' = <<>> /\ shadow' = <<>> /\ pend' = 0
-         /\ snap' = [r \in Readers |-> NoSnap]
-         /\ resizing' = FALSE /\ parked' = "no"
+Crash == /\ stack' = <<>> /\ shadow' = <<>> /\ bown' = 0 /\ pend' = 0 /\ squeezed' = FALSE
+         /\ snap' = [r \in Readers |-> NoSnap] /\ rd' = [t \in Threads |-> NoRd]
+         /\ resizing' = FALSE /\ wait' = [t \in Threads |-> "no"]
+         /\ cnt' = 0 /\ mark' = [t \in Threads |-> 0]
          /\ act' = [k |-> "Crash"]
-         /\ UNCHANGED <<committed, mapSize, used>>
+         /\ UNCHANGED <<committed, mapSize, used, torn>>
 
-Next == \/ Begin \/ BeginWait \/ Admit \/ ResizeRefused \/ Child \/ CommitChild \/ DropChild \/ Commit \/ Drop \/ Resize \/ Crash
-        \/ \E sp \in Spaces : \/ Iter(sp) \/ OutIter(sp)
-                              \/ \E r \in Readers : OutIterOpen(r, sp)
+NextNoCrash ==
+        \/ ResizeRefused \/ Child \/ CommitChild \/ DropChild \/ Commit \/ Drop \/ Resize
+        \/ \E t \in Threads : Begin(t) \/ BeginWait(t) \/ Admit(t) \/ ReadEnd(t) \/ ParkNested(t)
+        \/ \E sp \in Spaces : \/ Iter(sp)
+                              \/ \E t \in Threads : OutIter(t, sp) \/ \E r \in Readers : OutIterOpen(t, r, sp)
                               \/ \E key \in Keys : \/ Del(sp, key) \/ Get(sp, key) \/ Exists(sp, key)
-                                                   \/ OutGet(sp, key) \/ OutExists(sp, key)
+                                                   \/ \E t \in Threads : OutGet(t, sp, key) \/ OutExists(t, sp, key) \/ ReadBegin(t, sp, key)
                                                    \/ \E v \in Vals : Put(sp, key, v)
         \/ \E r \in Readers : OutIterNext(r) \/ OutIterClose(r)
+Next == NextNoCrash \/ Crash
 
 Spec == Init /\ [][Next]_vars
 
@@ -261,12 +365,16 @@ Spec == Init /\ [][Next]_vars
 TypeOK == /\ committed \in Maps
           /\ Depth <= MaxDepth /\ Len(shadow) = Depth
           /\ \A i \in 1..Depth : stack[i] \in Overlays /\ shadow[i] \in Maps
+          /\ bown \in Threads \cup {0} /\ (bown = 0 <=> stack = <<>>)
           /\ \A r \in Readers : snap[r] = NoSnap \/
-                (snap[r].open /\ snap[r].m \in Maps /\ snap[r].sp \in Spaces /\ snap[r].pos \in 0..NK + 1)
+                (snap[r].open /\ snap[r].m \in Maps /\ snap[r].sp \in Spaces /\ snap[r].pos \in 0..NK + 1 /\ snap[r].th \in Threads)
+          /\ \A t \in Threads : rd[t] = NoRd \/
+                (rd[t].open /\ rd[t].sp \in Spaces /\ rd[t].key \in Keys /\ rd[t].val \in Vals \cup {NoVal})
           /\ mapSize \in Nat /\ used \in Nat /\ pend \in 0..BatchMax
-          /\ resizing \in BOOLEAN /\ parked \in {"no", "gate", "gate_txn"}
-          /\ (parked = "gate_txn" => TxnBeforeGate)
-          /\ (resizing => parked # "no") /\ (parked # "no" => stack = <<>>)
+          /\ squeezed \in BOOLEAN /\ resizing \in BOOLEAN /\ torn \in BOOLEAN
+          /\ wait \in [Threads -> {"no", "gate", "gate_txn", "nested"}]
+          /\ cnt \in Nat /\ mark \in [Threads -> Nat]
+          /\ \A t \in Threads : wait[t] = "gate_txn" => TxnBeforeGate
 
 \* the overlay formulation, the definitional bottom-up view and LMDB's private-view
 \* formulation agree at every level; inside reads resolve top-down to exactly that view
@@ -275,12 +383,24 @@ LookupTopDown == Depth > 0 => TopView = shadow[Depth]
 
 \* no operation fails for lack of space (under the BatchMax assumption)
 NoMapFull == used + pend <= mapSize
+\* the gate's bookkeeping is exact: open_txs_count counts EVERY open transaction of every thread (iterators, reads in
+\* flight, the batch), and a thread's own count says how many of them are its own
+CountAgrees == cnt = OpenTxs
+MarkAgrees  == \A t \in Threads : mark[t] = Holds(t)
+\* the map is never replaced under an open transaction (the state-level face of ResizeGate)
+NoRemapUnderTxn == ~torn
+\* a thread that already holds a transaction never waits at the gate ...
+NoHolderParked == \A t \in Threads : Parked(t) => Holds(t) = 0
+\* ... or else nothing ever moves again: the enlargement waits for that transaction, its thread for the enlargement,
+\* and every other thread for the flag to come down
+GateLive == ~(resizing /\ \E t \in Threads : Parked(t) /\ Holds(t) > 0)
 \* the map is never enlarged under an open transaction - in particular not under a write transaction owned by
-\* the batch that waits for the enlargement - and no batch starts on a map that still needs to be enlarged
-ResizeGate == [][/\ act'.k = "Resize" => (stack = <<>> /\ NoReaderOpen /\ parked = "gate")
-                 /\ act'.k = "Begin" => ~NeedsResize]_vars
+\* the batch that waits for the enlargement - and a batch starts on a map that still needs to be enlarged only if
+\* its thread holds another transaction (then the enlargement cannot take place before it)
+ResizeGate == [][/\ act'.k = "Resize" => (OpenTxs = 0 /\ \A t \in Threads : wait[t] # "gate_txn")
+                 /\ act'.k = "Begin" => (NeedsResize => (Holds(act'.t) > 0 /\ squeezed' /\ resizing'))]_vars
 \* a batch waiting at the gate never owns the write transaction
-WaiterOwnsNothing == parked # "gate_txn"
+WaiterOwnsNothing == \A t \in Threads : wait[t] # "gate_txn"
 
 \* Isolation + atomicity: the committed map changes only at a top-level Commit, and then
 \* to the whole view of the batch at once (every write of the batch and of every child
@@ -293,11 +413,16 @@ ChildFolds == [][act'.k = "CommitChild" =>
 \* dropping leaves no trace
 DropNoTrace == [][/\ act'.k = "DropChild" => (shadow' = SubSeq(shadow, 1, Depth - 1) /\ committed' = committed)
                   /\ act'.k = "Drop" => (committed' = committed /\ stack' = <<>>)]_vars
-\* outside iterators keep the snapshot they were opened on, which was the committed map
-SnapStable == [][\A r \in Readers :
-                   /\ (snap[r] # NoSnap /\ snap'[r] # NoSnap) => (snap'[r].m = snap[r].m /\ snap'[r].sp = snap[r].sp)
-                   /\ (snap[r] = NoSnap /\ snap'[r] # NoSnap) => snap'[r].m = committed]_vars
+\* store iterators keep the snapshot they were opened on, which was the committed map - whatever their own thread
+\* (a batch of its own included) and the other threads commit meanwhile; the same for a read in flight
+SnapStable == [][/\ \A r \in Readers :
+                     /\ (snap[r] # NoSnap /\ snap'[r] # NoSnap) => (snap'[r].m = snap[r].m /\ snap'[r].sp = snap[r].sp /\ snap'[r].th = snap[r].th)
+                     /\ (snap[r] = NoSnap /\ snap'[r] # NoSnap) => snap'[r].m = committed
+                 /\ \A t \in Threads :
+                     /\ (rd[t] # NoRd /\ rd'[t] # NoRd) => rd'[t] = rd[t]
+                     /\ (rd[t] = NoRd /\ rd'[t] # NoRd) => rd'[t].val = committed[<<rd'[t].sp, rd'[t].key>>]
+                     /\ (act'.k = "ReadEnd" /\ act'.t = t) => act'.res = rd[t].val]_vars
 \* resize and crash do not touch committed data; a crash discards exactly the open batch
-ResizeStutter == [][act'.k \in {"Resize", "BeginWait", "ResizeRefused"} => UNCHANGED <<committed, stack, shadow, snap>>]_vars
+ResizeStutter == [][act'.k \in {"Resize", "BeginWait", "ResizeRefused", "ParkNested"} => UNCHANGED <<committed, stack, shadow, snap, rd>>]_vars
 CrashDurable  == [][act'.k = "Crash" => (committed' = committed /\ stack' = <<>>)]_vars
 =============================================================================
